@@ -21,13 +21,14 @@ CHECKS = {
             dict(name="FuzzC11", quick=dict(skip=True), thorough=dict(fuzz="300s", timeout=600, procs=16)),
         ]),
     "C18": dict(
-        pkg="c18", level="exploration",
-        technique="property-based testing (rapid): generated server lists/files/filters vs. a set-semantics reference model, plus small-scope exhaustive enumeration",
+        pkg="c18", level="exploration", bins=["dcat", "dgrep", "dtail"],
+        technique="property-based testing (rapid): generated server lists/files/filters vs. a set-semantics reference model, plus small-scope exhaustive enumeration; the real client binaries (incl. the retrying dtail) against harness-owned listeners, connections per address compared with the distinct entries",
         level_text="Random lists (1..3000 entries, duplicates, host:port forms) through the comma, file and plug-in sources with generated /regex/ filters are compared, as sorted multisets and over three calls (time-seeded shuffle), with the set of distinct matching entries; every list up to a small length over a 3-word alphabet is enumerated completely.",
         level_note="The /regex/ filter is only reachable through a discovery plug-in module (the shipped COMMA/FILE sources read the same string the filter is given in), so it is driven through the guarded VERIF module; empty entries ('a,,b') are outside the domain.",
         tests=[
             dict(name="TestC18Random", quick=dict(checks=4000, timeout=300), thorough=dict(checks=20000, shards=16, timeout=1500)),
             dict(name="TestC18Exhaustive", quick=dict(timeout=300), thorough=dict(timeout=1500)),
+            dict(name="TestC18Connections", quick=dict(checks=8, shards=8, timeout=600), thorough=dict(checks=80, shards=8, timeout=3000)),
         ]),
     "C16": dict(
         pkg="c16", level="exploration",
@@ -90,6 +91,7 @@ CHECKS = {
         tests=[
             dict(name="TestC05Clean", quick=dict(checks=250, shards=8, timeout=900), thorough=dict(checks=12000, shards=11, timeout=3400)),
             dict(name="TestC05Wide", quick=dict(checks=250, shards=8, timeout=900), thorough=dict(checks=12000, shards=5, timeout=3400)),
+            dict(name="TestC05Scale", quick=dict(checks=2, shards=6, timeout=900), thorough=dict(checks=40, shards=8, timeout=3400)),
         ]),
     "C10": dict(
         pkg="c10", level="exploration",
